@@ -68,8 +68,12 @@ def external_callers(prog):
     for f in prog.fns.values():
         if f.dp in step_dps:
             continue
+        # a call made from a closure is a call of the function that owns the closure
+        top = f
+        while top.kind == 'Closure' and top.parent in prog.fns:
+            top = prog.fns[top.parent]
         for b, t in f.body.calls(lambda c: c['path'] in items):
-            out.setdefault(t['f']['path'], []).append((f, t))
+            out.setdefault(t['f']['path'], []).append((top, t))
     return out
 
 
